@@ -43,6 +43,9 @@ def c15(ctx):
     # following on the own terminals of real devices (Devices.tla family follow): return values, and the own slots after an aborted update
     import p_devices
     p_devices.run_devices(ctx, [("devfollow", p_devices.dev_cfg("follow", [], 3 if q else 4, rich=not q), 4, None)], 1 if q else 3, observe="ret")
+    # the history adapter over a real history: GetterFromHistory in all its forms over the real MotionProfile of every exact move
+    import p_profile
+    p_profile.run_profile(ctx, "adapter", rich=not q)
     for name in ("exh_follow", "exh_history", "exh_const"):
         b = vlib.read_ndjson(os.path.join(ctx.out, name + ".ndjson"), limit=9000)[-1]
         ctx.sample({"family": b["family"], "steps": b["steps"]})
@@ -64,7 +67,9 @@ def c15(ctx):
                 "get / set / follow / update and TimeGetterFromGetter; devices (Devices.tla family follow): the own terminals of a real inverter, "
                 "gear train, axle and differential follow scripted getters of state data and command data (error / absent / fresh / old datum), "
                 "Device::update must return the first error in terminal order (command getter before state getter), leave the terminals behind "
-                "it untouched and otherwise store exactly the getters' data before computing. "
+                "it untouched and otherwise store exactly the getters' data before computing; adapter over a real history: GetterFromHistory in its "
+                "six forms (four constructors, set_delta, set_time) over the real MotionProfile of every move of MotionProfile.tla, queried at every "
+                "half tick and boundary +-1 ns: the kind the phase automaton predicts, the bits of a direct History::get, stamped with the clock. "
                 "Non-trivial = an update while following / a live adapter / a getter change.")
     ctx.assumptions += ["clock values and offsets are small integers in the specification, mapped affinely to i64 without overflow"]
     ctx.exhaustive = False
